@@ -636,7 +636,7 @@ Definition instance_table (c : N * bool * list bytes * list (list item * list it
 (* property on the real I/O: structure preserved, non-targeted values untouched, substitution is a
    length-preserving injective function for the lifetime of the instance *)
 Definition obf_prop (c : N * bool * list bytes * list (list item * list item)) : bool :=
-  match instance_table c with Some t => table_okb t | None => false end.
+  match instance_table c with Some t => table_okb t && replaced_okb t | None => false end.
 (* model = implementation: the model run with the observed substitution reproduces the output exactly *)
 Definition obf_check (c : N * bool * list bytes * list (list item * list item)) : bool :=
   let '(signal, all, ks, docs) := c in
